@@ -20,7 +20,7 @@ TECHNIQUE = ("fault enumeration + property-based testing: the agent is an arbitr
              "simulation for repetition-independent functions; exhaustive over all functions on 4-OID universes in thorough")
 RULE = ("case = universe (1..3 roots, 2..5 OIDs inside each, OIDs before/between/after) x total function f "
         "(honest successor with 0..3 drawn defects, or fully random; repetition-dependent in half of the bulk "
-        "cases) x operation {walk, multiwalk, bulkwalk, table, bulktable} x errors {strict, warn} x bulk 0..8 x value bound to each returned OID {INTEGER, noSuchObject, noSuchInstance, OCTET STRING, NULL} x requests answered with an empty binding list x requests answered with an error-status (2, 5, 13) and an error-index inside / outside the request; "
+        "cases) x operation {walk, multiwalk, bulkwalk, table, bulktable; one case in six through the pythonic wrapper} x errors {strict, warn} x bulk 0..8 x value bound to each returned OID {INTEGER, noSuchObject, noSuchInstance, OCTET STRING, NULL} x requests answered with an empty binding list x requests answered with an error-status (2, 5, 13) and an error-index inside / outside the request; "
         "non-trivial = f has a non-advancing step reachable from a root; distinct = SHA-1 of canonical JSON case")
 ASSUMPTIONS = [
     "bound (3) #requests <= #distinct OIDs revealed + #roots + 1 is deliberately loose",
@@ -151,7 +151,27 @@ def run_case(case) -> Result:
 
     async def go():
         R = [vworld.OID(r) for r in roots]
-        if op == "walk":
+        if case.get("via_wrapper"):
+            # the same operations through the pythonic wrapper (it offers the lenient mode for walk only)
+            py = vworld.PyWrapper(client)
+            S = vagent.S
+            T = lambda o: tuple(int(x) for x in o.split("."))  # noqa
+            if op == "walk":
+                async for vb in py.walk(S(roots[0]), errors=errors):
+                    delivered.append(T(vb.oid))
+            elif op == "multiwalk":
+                async for vb in py.multiwalk([S(r) for r in roots]):
+                    delivered.append(T(vb.oid))
+            elif op == "bulkwalk":
+                async for vb in py.bulkwalk([S(r) for r in roots], bulk_size=bulk):
+                    delivered.append(T(vb.oid))
+            elif op == "table":
+                for row in await py.table(S(roots[0])):
+                    delivered.append(row["0"])
+            else:
+                for row in await py.bulktable(S(roots[0]), bulk_size=bulk):
+                    delivered.append(row["0"])
+        elif op == "walk":
             async for vb in client.walk(R[0], errors=errors):
                 delivered.append(vworld.oid_tuple(vb.oid))
         elif op == "multiwalk":
@@ -178,6 +198,8 @@ def run_case(case) -> Result:
         classes.append("nonadvancing_reachable")
     if bulk == 0:
         classes.append("bulk=0")
+    if case.get("via_wrapper"):
+        classes.append("via_wrapper")
     if case.get("values"):
         classes.append("exception_marker_values" if any(v in (1, 2) for v in case["values"]) else "other_value_types")
     if case.get("empty_at"):
@@ -288,6 +310,13 @@ def run_case(case) -> Result:
     return Result(None, nonadv, classes, observations={"max_requests": len(agent.requests)})
 
 
+def _wrapper_modes(case):
+    # the wrapper passes `errors` on for walk only: its other operations are strict
+    if case.get("via_wrapper") and case["op"] != "walk":
+        case["errors"] = "strict"
+    return case
+
+
 @st.composite
 def cases(draw):
     nroots = draw(st.sampled_from([1, 1, 2, 3]))
@@ -335,12 +364,13 @@ def cases(draw):
         values = [draw(st.sampled_from([0, 0, 0, 1, 2, 3, 4])) for _ in U]
     elif values == "all":
         values = [draw(st.sampled_from([1, 2]))] * len(U)
-    return dict(nroots=nroots, inside=inside, variant=variant, op=op, values=values,
+    via_wrapper = draw(st.integers(0, 5)) == 0
+    return _wrapper_modes(dict(nroots=nroots, inside=inside, variant=variant, op=op, values=values, via_wrapper=via_wrapper,
                 errors=draw(st.sampled_from(["strict", "strict", "warn"])),
                 bulk=bulk, f=tab, stop_all_eom=draw(st.booleans()),
                 empty_at=draw(st.sampled_from([[], [], [], [], [], [0], [1], [2], [1, 2], [3]])),
                 error_at=draw(st.sampled_from([{}, {}, {}, {}, {}, {"1": [2, 0]}, {"1": [2, 7]}, {"2": [2, 1]}, {"0": [2, 1]}, {"1": [5, 1]},
-                                               {"2": [2, 0]}, {"1": [2, 2]}, {"3": [13, 0]}])))
+                                               {"2": [2, 0]}, {"1": [2, 2]}, {"3": [13, 0]}]))))
 
 
 def exhaustive(shard, nshards):
